@@ -32,8 +32,14 @@ def is_trivial(line, mo):
     return mo.count("|") < 1
 
 
+# "a prefix of any name": ordinary ones, single letters, and names that are (leading substrings of) XTCE element names
+PREFIX_POOL = ["x", "ns0", "XTCE", "D", "U", "L", "R", "S", "P", "C", "E", "B", "T", "F", "I", "A", "V", "d", "u",
+               "Unit", "Base", "Default", "Sequence", "Parameter", "Comparison", "Entry", "Header", "SpaceSystem",
+               "Context", "Calibrator", "x-t.c_e", "_x", "Size", "Fixed", "Term", "Spline", "Enumeration", "Long"]
+
+
 def spellings(rng):
-    return [xmlgen.Spelling("prefix", "xtce"), xmlgen.Spelling("prefix", rng.choice(["x", "ns0", "XTCE"])),
+    return [xmlgen.Spelling("prefix", "xtce"), xmlgen.Spelling("prefix", rng.choice(PREFIX_POOL)),
             xmlgen.Spelling("default"), xmlgen.Spelling("none", extra_ns=False), xmlgen.Spelling("none", extra_ns=True)]
 
 
@@ -66,7 +72,7 @@ def generate(rng, tier):
     ndefs = 16 if tier == "quick" else 250
     docs = []
     for _ in range(ndefs):
-        d = defgen.Defn(rng, max_depth=rng.choice([1, 2, 3]), fanout=3, adj_pool=c09.ADJ_POOL, rich=True)
+        d = defgen.Defn(rng, max_depth=rng.choice([1, 2, 3]), fanout=3, adj_pool=c09.ADJ_POOL, rich=True, odd_names=True)
         docs.append(d.sexpr())
     for dsx in docs:
         import random
